@@ -695,8 +695,9 @@ func (s *ScopedKeyManager) DeriveFromKeyPathCache(
 		)
 	}
 
-	watchOnly := s.rootManager.WatchOnly()
-	private := !s.rootManager.IsLocked() && !watchOnly
+	// The account itself may be watch-only (an imported xpub), in which
+	// case there is no account private key to derive from.
+	private := acctInfo.acctKeyPriv != nil
 
 	// Now that we have the account information, we can derive the key
 	// directly.
